@@ -246,6 +246,18 @@ def find(t, pred) -> list:
     return [x for x in subterms(t) if pred(x)]
 
 
+def mk_sub(base, idx):
+    """Subscript with the obvious folding: <tuple / list literal>[<constant index>] is that element (also through a
+    conditional whose branches are both literals)."""
+    if idx[0] == "const" and isinstance(idx[1], int) and not isinstance(idx[1], bool):
+        if base[0] in ("tuple", "list") and -len(base[1]) <= idx[1] < len(base[1]) and \
+                not any(x[0] == "star" for x in base[1]):
+            return base[1][idx[1]]
+        if base[0] == "ite" and all(b[0] in ("tuple", "list") for b in (base[2], base[3])):
+            return ite(base[1], mk_sub(base[2], idx), mk_sub(base[3], idx))
+    return ("sub", base, idx)
+
+
 def map_children(t, r):
     """Rebuild t with r applied to each direct sub-term."""
     k = t[0]
@@ -254,7 +266,7 @@ def map_children(t, r):
     if k == "attr":
         return ("attr", r(t[1]), t[2])
     if k == "sub":
-        return ("sub", r(t[1]), r(t[2]))
+        return mk_sub(r(t[1]), r(t[2]))
     if k == "slice":
         return ("slice", r(t[1]), r(t[2]), r(t[3]))
     if k == "call":
@@ -1178,6 +1190,9 @@ class _FuncEval:
                         return _from_python(v)
                 except (ValueError, SyntaxError, TypeError):
                     pass
+        nt = self._named_tuple_of(e.value)
+        if nt is not None and e.attr in nt:
+            return mk_sub(b, ("const", nt.index(e.attr)))     # a field of a NamedTuple is its position
         t = ("attr", b, e.attr)
         try:
             props = self.ix.resolve_property_load(e, self.scope)
@@ -1186,6 +1201,16 @@ class _FuncEval:
         if props:
             self.summ.props[t] = props
         return t
+
+    def _named_tuple_of(self, expr):
+        """Field names, in order, when `expr` is (by type inference) an instance of a typing.NamedTuple class."""
+        try:
+            t = self.ix.infer(expr, self.scope)
+        except Exception:  # noqa: BLE001
+            return None
+        if t is not None and t[0] == "inst":
+            return _nt_fields(t[1])
+        return None
 
     def _global_callee(self, f):
         """The package function / constructor named by a ('global', dotted) function term, if it resolves."""
@@ -1197,7 +1222,7 @@ class _FuncEval:
         return self.ev(sl, p)
 
     def e_Subscript(self, e, p):
-        return ("sub", self.ev(e.value, p), self.ev_slice(e.slice, p))
+        return mk_sub(self.ev(e.value, p), self.ev_slice(e.slice, p))
 
     def e_Slice(self, e, p):
         return self.ev_slice(e, p)
@@ -1342,6 +1367,10 @@ class _FuncEval:
         args = tuple(self.ev(a, p) for a in e.args)
         kwargs = tuple((k.arg, self.ev(k.value, p)) if k.arg is not None else (None, ("dstar", self.ev(k.value, p)))
                        for k in e.keywords)
+        if fn[0] == "global":
+            nt = _nt_construction(self, e, args, kwargs)
+            if nt is not None:
+                return nt
         if len(args) == 2 and not kwargs and fn[0] == "global" and fn[1].split(".")[-1] == "cast":
             try:
                 if self.ix._is_typing_cast(e, self.scope):
@@ -1411,6 +1440,42 @@ class _FuncEval:
         # calls evaluated inside larger expressions still happen: record them as effects when they are method calls
         # with a mutating name or package calls (the rules look at summ.all_calls for the rest)
         return t
+
+
+def _nt_fields(cls):
+    if not any(isinstance(b, str) and b.split(".")[-1] == "NamedTuple" for b in cls.bases):
+        return None
+    return [st.target.id for st in cls.node.body if isinstance(st, ast.AnnAssign) and isinstance(st.target, ast.Name)]
+
+
+def _nt_construction(ev, e, args, kwargs):
+    """NamedTupleClass(...) as the tuple of its fields (positional / keyword arguments and defaults bound), or None."""
+    try:
+        ent = ev.ix.resolve_expr_entity(e.func, ev.func.module)
+    except Exception:  # noqa: BLE001
+        return None
+    if ent is None or ent[0] != "class":
+        return None
+    fields = _nt_fields(ent[1])
+    if not fields or any(a[0] == "star" for a in args) or any(k is None for k, _ in kwargs):
+        return None
+    vals = dict(zip(fields, args))
+    for k, v in kwargs:
+        vals[k] = v
+    defaults = {st.target.id: st.value for st in ent[1].node.body
+                if isinstance(st, ast.AnnAssign) and isinstance(st.target, ast.Name) and st.value is not None}
+    out = []
+    for f in fields:
+        if f in vals:
+            out.append(vals[f])
+        elif f in defaults:
+            try:
+                out.append(_from_python(ast.literal_eval(defaults[f])))
+            except (ValueError, SyntaxError, TypeError):
+                return None
+        else:
+            return None
+    return ("tuple", tuple(out))
 
 
 def _global_callee_impl(ev, f):
@@ -1886,6 +1951,72 @@ def generator_sources(te: "TermEval", summ: Summary, t, depth: int = 2) -> list:
             sub.precise = {substitute(k, amap) for k in gs.precise}
             out.extend(generator_sources(te, sub, v, depth - 1))
     return out
+
+
+def field_resolver(te: "TermEval", cls, depth: int = 4, skip=()):
+    """-> resolve(term): every read of an instance field `self.f` (of `cls`) that the constructor stores exactly once,
+    on its refusal-free path, is replaced by the stored value - a term over the constructor's *parameters*.  Rules
+    phrased over the resolved form do not depend on how (under which private names, in which containers) the object
+    keeps what it was constructed with.  Properties of the class are looked through as well."""
+    init = cls.lookup("__init__")
+    stored: dict = {}
+    if init is not None:
+        isum = te.inline(init, 2, stop=lambda g: g.cls is None or (g.cls is not cls and g.cls not in cls.mro()))
+        refusal = set()
+        for pc, _ in raise_conditions(isum):
+            for c in pc:
+                refusal.update(literals(c))
+        count: dict = {}
+        for obj, key, val, e in attr_stores(isum):
+            if obj == SELF and key[0] == "const":
+                count[key[1]] = count.get(key[1], 0) + 1
+                if not e.ctx and all(neg(l) in refusal for l in e.pc):
+                    stored[key[1]] = val
+        stored = {k: v for k, v in stored.items() if count.get(k) == 1 and k not in skip}
+    # fields stored anywhere else as well are not constants of the object
+    volatile = set()
+    for f in te.ix.functions.values():
+        if f is init or f.cls is None or not (f.cls is cls or cls in f.cls.mro() or f.cls in cls.mro()):
+            continue
+        for obj, key, val, e in attr_stores(te.summary(f)):
+            if obj == SELF and key[0] == "const":
+                volatile.add(key[1])
+    props = {n: m for n, m in ((k, cls.lookup(k)) for k in {k for c in cls.mro() for k in c.methods})
+             if m is not None and m.kind == "property"}
+
+    def through_properties(t, table, d):
+        # properties of *other* objects (e.g. of a NamedTuple kept in a field), as recorded by type inference in the
+        # summary the term comes from: <obj>.prop -> the getter's value for self := <obj>
+        if not table or d <= 0:
+            return t
+
+        def g(x):
+            getters = table.get(x) if x[0] == "attr" and x[1] != SELF else None
+            if getters and len(getters) == 1 and getters[0].param_names:
+                ps = te.summary(getters[0])
+                if len(ps.returns) == 1 and not ps.effects:
+                    inner = through_properties(ps.returns[0][1], ps.props, d - 1)
+                    return substitute(inner, {getters[0].param_names[0]: through_properties(x[1], table, d - 1)})
+            return x
+        return _top_down(t, g)
+
+    def resolve(t, d=depth, props_of=None):
+        if d <= 0 or not isinstance(t, tuple):
+            return t
+        t = through_properties(t, props_of, d)
+
+        def f(x):
+            if x[0] == "attr" and x[1] == SELF:
+                if x[2] in stored and x[2] not in volatile:
+                    return resolve(stored[x[2]], d - 1, isum.props if init is not None else None)
+                if x[2] in props:
+                    ps = te.summary(props[x[2]])
+                    if len(ps.returns) == 1 and not ps.effects:
+                        return resolve(ps.returns[0][1], d - 1, ps.props)
+            return x
+        return rebuild(t, f)
+    resolve.stored = stored
+    return resolve
 
 
 def bound_arg(te: "TermEval", summ: Summary, c, name: str):
